@@ -21,11 +21,12 @@ const (
 	YTaskEnd
 	YBlock
 	YOpBoundary
+	YAtomic
 	nYKinds
 )
 
 var YieldNames = [nYKinds]string{"", "Lock", "Locked", "Unlock", "RLock", "RLocked", "RUnlock",
-	"OnceEnter", "OnceExit", "PoolGet", "PoolGot", "PoolPut", "FP", "TaskEnd", "Block", "OpBoundary"}
+	"OnceEnter", "OnceExit", "PoolGet", "PoolGot", "PoolPut", "FP", "TaskEnd", "Block", "OpBoundary", "Atomic"}
 
 // Scheduling policies (explore mode only; replay reads concrete choices).
 const (
@@ -295,7 +296,7 @@ func decide(site int) int {
 			}
 		case PolTargeted:
 			p := R.cfg.SwitchPct / 4
-			if site == YPoolPut || site == YPoolGet || site == YPoolGot || site == YOnceEnter {
+			if site == YPoolPut || site == YPoolGet || site == YPoolGot || site == YOnceEnter || site == YAtomic {
 				p = 5000
 			}
 			if int(R.tape.rawRand(KSched)%10000) < p {
